@@ -3,8 +3,8 @@ package main
 // execOp runs one operation of the line protocol against the real go-ntrip code.
 
 import (
-	"os"
 	"fmt"
+	"os"
 	"strconv"
 	"strings"
 )
